@@ -2,55 +2,62 @@ package main
 
 import (
 	"fmt"
+	"runtime"
+	"time"
 
 	"github.com/cosmos/cosmos-proto/testpb"
+	vm "github.com/cosmos/cosmos-proto/verifh/gen/vm"
 	"google.golang.org/protobuf/proto"
-	"google.golang.org/protobuf/reflect/protoreflect"
-	"google.golang.org/protobuf/reflect/protoregistry"
-	"google.golang.org/protobuf/runtime/protoimpl"
 	"google.golang.org/protobuf/types/dynamicpb"
 )
 
-func try(name string, f func()) {
-	defer func() {
-		if e := recover(); e != nil {
-			fmt.Println(name, "=> PANIC:", e)
-		}
-	}()
-	f()
+// n records `0a 04 08 k 12 L_i` with L_i = 6*(records that follow): each map value's payload is all later records
+func expo(n int) []byte {
+	var b []byte
+	for i := 0; i < n; i++ {
+		b = append(b, 0x0a, 0x04, 0x08, byte(i), 0x12, byte(6*(n-1-i)))
+	}
+	return b
+}
+
+func count(m *vm.Rm) int {
+	c := 1
+	for _, v := range m.M {
+		c += count(v)
+	}
+	return c
 }
 
 func main() {
-	a := &testpb.A{}
-	md := a.ProtoReflect().Descriptor()
-	fdMsg := md.Fields().ByName("MESSAGE")
-	fdOB := md.Fields().ByName("ONEOF_B")
-	mt, _ := protoregistry.GlobalTypes.FindMessageByName(md.FullName())
-	info := mt.(*protoimpl.MessageInfo)
-	slow := func() protoreflect.Message { return info.MessageOf(&testpb.A{}) }
-	dyn := func() protoreflect.Message { return dynamicpb.NewMessage(md) }
-	fast := func() protoreflect.Message { return (&testpb.A{}).ProtoReflect() }
-	for _, im := range []struct {
-		n string
-		f func() protoreflect.Message
-	}{{"fast", fast}, {"slow", slow}, {"dyn", dyn}} {
-		m := im.f()
-		inv := m.Get(fdMsg) // invalid read-only message
-		try(im.n+" Set(MESSAGE, invalid)", func() { m.Set(fdMsg, inv); fmt.Println(im.n, "Set(MESSAGE, invalid) ok; Has =", m.Has(fdMsg)) })
-		m2 := im.f()
-		try(im.n+" Set(ONEOF_B, invalid)", func() {
-			m2.Set(fdOB, m2.Get(fdOB))
-			fmt.Println(im.n, "Set(ONEOF_B, invalid) ok; Has =", m2.Has(fdOB), "which =", m2.WhichOneof(md.Oneofs().Get(0)))
-		})
+	for _, n := range []int{4, 8, 12, 16, 18, 20} {
+		b := expo(n)
+		var ms0, ms1 runtime.MemStats
+		runtime.ReadMemStats(&ms0)
+		t0 := time.Now()
+		m := &vm.Rm{}
+		err := proto.Unmarshal(b, m)
+		dt := time.Since(t0)
+		runtime.ReadMemStats(&ms1)
+		d := dynamicpb.NewMessage(m.ProtoReflect().Descriptor())
+		rerr := proto.Unmarshal(b, d)
+		fmt.Printf("n=%d bytes=%d err=%v messages=%d alloc=%d KB time=%v | reference err=%v\n", n, len(b), err, count(m), (ms1.TotalAlloc-ms0.TotalAlloc)/1024, dt, rerr)
 	}
-	try("fast nil GetUnknown", func() { fmt.Println("fast nil GetUnknown:", (*testpb.A)(nil).ProtoReflect().GetUnknown()) })
-	try("slow nil GetUnknown", func() { fmt.Println("slow nil GetUnknown:", info.MessageOf((*testpb.A)(nil)).GetUnknown()) })
-	try("fast Equal nil elem", func() {
-		x := &testpb.A{LIST: []*testpb.B{nil}}
-		fmt.Println("Equal:", proto.Equal(x, x), "Clone:", proto.Clone(x))
-	})
-	try("fast Clone nil map value", func() {
-		x := &testpb.A{MAP: map[string]*testpb.B{"k": nil}}
-		fmt.Println("Clone:", proto.Clone(x), proto.Equal(x, proto.Clone(x)))
-	})
+	// quadratic on the checked-in testpb.A: map<string,B> MAP = 18; records 92 01 03 0a <2-byte varint L>
+	for _, n := range []int{100, 1000, 2000} {
+		var b []byte
+		for i := 0; i < n; i++ {
+			L := 6 * (n - 1 - i)
+			b = append(b, 0x92, 0x01, 0x03, 0x0a, byte(L&0x7f|0x80), byte(L>>7))
+		}
+		var ms0, ms1 runtime.MemStats
+		runtime.ReadMemStats(&ms0)
+		a := &testpb.A{}
+		err := proto.Unmarshal(b, a)
+		runtime.ReadMemStats(&ms1)
+		tot := 0
+		for k := range a.MAP {
+			tot += len(k)
+		}
+		fmt.Printf("testpb.A n=%d bytes=%d err=%v entries=%d key bytes held=%d alloc=%d KB\n", n, len(b), err, len(a.MAP), tot, (ms1.TotalAlloc-ms0.TotalAlloc)/1024)
+	}
 }
